@@ -557,11 +557,18 @@ pub fn gen(rng: &mut Rng, tier: Tier, out: &mut Vec<String>) {
         out.push(format!("inv {}", c));
     }
     // small but perfectly conditioned linear parts: the determinant guard of inverse() is absolute
-    for _ in 0..(if q { 60 } else { 2000 }) {
-        let s = rng.f32_in(1.0e-3, 2.0e-2);
-        let (c, n) = chain(rng, 3, 50.0);
-        let rest = c.splitn(2, ' ').nth(1).unwrap().to_string();
-        out.push(format!("inv {} S {} {}", n + 1, h3([s, s, s]), rest));
+    // (uniform scale s in [1.8e-3, 8e-3] times rotations: 4x4 condition number about 1/s <= 1e3, det = s^3)
+    for _ in 0..(if q { 80 } else { 3000 }) {
+        // below eps/4 (refused) or above 4*eps (inverted): the band in between is the guard's rounding zone
+        let s = if rng.bool() { rng.f32_in(1.8e-3, 3.0e-3) } else { rng.f32_in(8.0e-3, 2.0e-2) };
+        let k = rng.below(3) as usize;
+        let mut toks = format!("inv {} S {}", k + 1, h3([s, s, s]));
+        for _ in 0..k {
+            let kind = 2 + rng.below(3);
+            let p = part(rng, kind);
+            toks += &format!(" {}", p.toks);
+        }
+        out.push(toks);
     }
     // singular and nearly singular matrices: the guard must panic, never return garbage silently
     for i in 0..(if q { 60 } else { 2000 }) {
